@@ -35,6 +35,10 @@ one-level summaries computed to a fixpoint over all units) plus Engine I (sa/int
   R13.12 unevaluated text      the evaluators (recursive value functions over Node, derived) visit the right operand of && / || and the arms of ?: only
                                under the matching outcome of a test of the controlling operand's value; the #elif arm hands its line to a function that
                                reaches the evaluators only where the flag it sets when a group is taken is known to be false.
+  R13.13 valid redeclarations  function() reaches no diagnostic for any sequence of declarations of one function that C11 allows (storage class x inline x body,
+                               after every history function() itself can have produced); Engine I on concrete specifier flags (sa/lib_c13decl.py).
+  R13.14 valid specifier lists declspec() consumes every C11 declaration-specifier list of the enumerated families (storage class, function specifiers, qualifiers,
+                               _Atomic, _Alignas, type-specifier lists; several orders; with and without VarAttr) completely and without a diagnostic.
 
 Not implemented (stated, not claimed): error_at's pointer lies inside current_file->contents (R13.6, second clause);
 store_fp/store_gp call sites whose argument is MIN(8,size) / size-8 (R13.3, listed as not judged in the evidence);
@@ -42,6 +46,7 @@ assert(depth == 0), assert(ty->size <= 16) in emit_text and the two asserts of h
 """
 from ..build import AnalysisBroken
 from .. import lib_c13 as L
+from .. import lib_c13decl as LD
 
 # --------------------------------------------------------------------------------------------
 # R13.1 frozen table: fields the code itself leaves NULL for some objects (each confirmed by reading
@@ -266,6 +271,8 @@ def run(P, rep, tier):
     r1310_phases(P, rep)
     r1311(W, engs, rep)
     r1312(W, engs, rep)
+    LD.r1313_function(P, rep)
+    LD.r1314_declspec(P, rep)
 
 
 def r1310_phases(P, rep):
